@@ -24,8 +24,24 @@ A notation is given as a *spec* (plain tuples, JSON-able):
     Verdict("ok", denotation=Denotation(...))   the notation is one the statement lists: this is what it denotes
     Verdict("refuse", reason=...)               the statement (or the plain meaning of the notation) says it must
                                                 be refused: number out of range, or text that is no address at all
-    Verdict("unlisted", reason=...)             not in the statement's list of notations (routes, interface names,
+    Verdict("unlisted", reason=...)             not in the statement's list of notations (interface names,
                                                 Ethernet colon form, '*:5', leading-zero IP octets, ...): no verdict
+
+Routes.  The text forms take a suffix `@route` and the typed constructors an argument `route=` (tagged
+("r", ctor, arg): route=ctor(arg)); the route names the local station through which the address is reached.
+The statement is about the default configuration, in which the stack is *not* route aware.  What that implies
+is stated here and nowhere else:
+
+* the route does not change which station / broadcast is addressed: type, network and octets (and the IP
+  values) are those of the notation without the route; the denotation carries the route's octets next to them
+  (`Denotation.route`) so that the check can tell "same address, same route" (`full_key`) from "same address,
+  another or no route";
+* a route is a local station written as a station number, as 0x octets or as dotted IPv4 with optional port
+  (what a route-less local station can be written as, minus the forms the library does not take after '@');
+  a station number / port / IP octet out of range after '@' is as wrong as in front of it;
+* whether two spellings of one address with different routes (or one with and one without) are *equal* is not
+  stated - it is for the check to demand that whatever `==` answers is an equivalence relation and agrees with
+  `hash`; two spellings of one address with the same route denote the same thing and must be equal.
 """
 import ipaddress
 import socket
@@ -45,7 +61,8 @@ DEFAULT_PORT = 0xBAC0
 MIN_OCTETS, MAX_OCTETS = 1, 7       # the lengths the statement quantifies over
 
 # kind, net (None for local/global), octets (None for broadcasts), ip (IPInfo or None), shape (printable family)
-Denotation = namedtuple("Denotation", "kind net octets ip shape")
+# route: octets of the local station named by an @route suffix / route= argument, None without one
+Denotation = namedtuple("Denotation", "kind net octets ip shape route", defaults=(None,))
 # word/port always; masklen None when the notation carries no mask information (tuples, raw octets):
 # then mask/subnet/host/broadcast are None too ("not denoted")
 IPInfo = namedtuple("IPInfo", "dotted word port masklen mask subnet host broadcast")
@@ -65,8 +82,8 @@ class Verdict(object):
         return "%s (%s)" % (self.status, self.reason)
 
 
-def _ok(kind, net, octets, ip, shape):
-    return Verdict("ok", Denotation(kind, net, octets, ip, shape))
+def _ok(kind, net, octets, ip, shape, route=None):
+    return Verdict("ok", Denotation(kind, net, octets, ip, shape, route))
 
 
 def _refuse(reason):
@@ -81,6 +98,11 @@ def class_key(den):
     """Two notations denote the same address iff type, network and station octets agree
     (a mask says where the station sits in its subnet, not which station it is)."""
     return (den.kind, den.net, den.octets)
+
+
+def full_key(den):
+    """class_key plus the route: two notations with the same full key denote the same thing in every respect"""
+    return (den.kind, den.net, den.octets, den.route)
 
 
 # ------------------------------------------------------------------ IP arithmetic (stdlib ipaddress)
@@ -197,7 +219,7 @@ def denote_text(s):
     if s != s.strip():
         return _unlisted("surrounding white space")
     if "@" in s:
-        return _unlisted("@route suffix")
+        return _denote_routed_text(s)
     if s == "":
         return _refuse("malformed: empty text")
 
@@ -291,6 +313,73 @@ def denote_text(s):
     return _ok(REMOTE_STATION if remote else LOCAL_STATION, net, bip_octets(dotted, port), info, shape)
 
 
+# ------------------------------------------------------------------ text with an @route suffix
+
+def _denote_route_text(r):
+    """the text after '@' -> octets of the local station it names | Verdict"""
+    if r == "":
+        return _refuse("malformed: nothing after '@'")
+    if _is_dec(r):
+        if int(r) > MAX_STATION:
+            return _refuse("range: station above 255 (route)")
+        return bytes([int(r)])
+    if r[:2] in ("0x", "0X"):
+        o = _hex_body(r)
+        if isinstance(o, Verdict):
+            return o
+        if not (MIN_OCTETS <= len(o) <= MAX_OCTETS):
+            return _unlisted("route octet string longer than 7")
+        return o
+    quad_port = r.split(":")
+    if "." in quad_port[0] and len(quad_port) <= 2 and all(c in _DIGITS or c in "./" for c in quad_port[0]):
+        body = _ip_body(quad_port[0])
+        if isinstance(body, Verdict) and body.status == "refuse":
+            return body
+        port = DEFAULT_PORT
+        if len(quad_port) == 2:
+            if not _is_dec(quad_port[1]):
+                return _refuse("malformed: port number expected (route)")
+            port = int(quad_port[1])
+            if port > MAX_PORT:
+                return _refuse("range: port above 65535 (route)")
+        if isinstance(body, Verdict):
+            return body
+        dotted, masklen = body
+        if masklen is not None:
+            return _unlisted("route with a mask")
+        return bip_octets(dotted, port)
+    return _unlisted("route that is not a station number, 0x octets or dotted IPv4")
+
+
+def _denote_routed_text(s):
+    """'<address>@<route>': the address as without the suffix, and the route next to it"""
+    left, _, right = s.partition("@")
+    if "@" in right:
+        return _refuse("malformed: more than one '@'")
+    if left == "":
+        return _refuse("malformed: nothing in front of '@'")
+    vl = denote_text(left)
+    route = _denote_route_text(right)
+    if vl.status == "refuse":
+        return vl
+    if isinstance(route, Verdict) and route.status == "refuse":
+        return route
+    if vl.status != "ok":
+        return vl
+    if isinstance(route, Verdict):
+        return route
+    d = vl.denotation
+    if "X'" in left:
+        return _unlisted("X'' octets with a route suffix")
+    if len(route) == 1:
+        rshape = "@station"
+    elif "." in right:
+        rshape = "@ip"
+    else:
+        rshape = "@0x"
+    return _ok(d.kind, d.net, d.octets, d.ip, d.shape + rshape, route)
+
+
 # ------------------------------------------------------------------ other notations
 
 def denote_station_number(n):
@@ -366,16 +455,42 @@ def _to_remote(net, v, shape):
         return v
     d = v.denotation
     if d.kind == LOCAL_STATION:
-        return _ok(REMOTE_STATION, net, d.octets, d.ip, shape)
+        return _ok(REMOTE_STATION, net, d.octets, d.ip, shape, d.route)
     if d.kind == LOCAL_BROADCAST:
-        return _ok(REMOTE_BROADCAST, net, None, None, shape)
+        return _ok(REMOTE_BROADCAST, net, None, None, shape, d.route)
     return _unlisted("network given twice")
+
+
+def _denote_with_route_argument(ctor, args):
+    """typed constructor with a trailing ("r", route ctor, arg): the address as without it, plus the route"""
+    if ctor == "Address" or args[-1][0] != "r" or any(a[0] == "r" for a in args[:-1]) or len(args[-1]) != 3:
+        return _unlisted("route= argument in a form the typed constructors do not have")
+    _, rctor, rarg = args[-1]
+    if rctor not in ("Address", "LocalStation"):
+        return _unlisted("route that is not given as Address(...) / LocalStation(...)")
+    vr = denote((rctor, tuple(rarg)))
+    v = denote((ctor,) + tuple(args[:-1]))
+    if v.status == "refuse":
+        return v
+    if vr.status == "refuse":
+        return vr
+    if v.status != "ok":
+        return v
+    if vr.status != "ok":
+        return vr
+    r = vr.denotation
+    if r.kind != LOCAL_STATION or r.route is not None:
+        return _unlisted("route that is not a plain local station")
+    d = v.denotation
+    return _ok(d.kind, d.net, d.octets, d.ip, d.shape[:-1] + (",route)" if len(args) > 1 else "route)"), r.octets)
 
 
 def denote(spec):
     """What the notation `spec` denotes (see module docstring)."""
     ctor = spec[0]
     args = [tuple(a) for a in spec[1:]]
+    if any(a[0] == "r" for a in args):
+        return _denote_with_route_argument(ctor, args)
     tags = ",".join(a[0] for a in args)
     shape = "%s(%s)" % (ctor, tags)
 
